@@ -1,4 +1,6 @@
 """Configurations of the USim model for the task / scope properties (C03..C07) and the shared runner."""
+import os
+
 import usimrun
 
 B = dict(NFlags=1, NLocks=1, Horizon=2)
@@ -18,6 +20,10 @@ CONFIGS = {
     # until with children that react to being closed
     'until_kids': dict(B, NRoots=1, MaxActs=3, MaxScopes=1, RootOps=3, TaskOps=2, Horizon=3,
                        Menu={'leave', 'instant', 'sleep', 'until_d', 'do', 'do_fin', 'do_volatile'}),
+    # children of an until block whose start date (or next tick) lies BEYOND the trigger, with the simulation going on
+    # past those dates afterwards: what the forced close leaves behind in the time queue must be dead
+    'until_late': dict(B, NRoots=1, MaxActs=3, MaxScopes=1, RootOps=4, TaskOps=1, Horizon=3, TickSel='mixed',
+                       Menu={'leave', 'sleep', 'until_d', 'do', 'do_after', 'do_volatile', 'tick'}),
     # until(<date condition>) left by the body's own exception / completion in the step the date fires
     'until_time': dict(B, NRoots=1, MaxActs=2, MaxScopes=1, RootOps=4, TaskOps=1,
                        Menu={'instant', 'sleep', 'leave', 'until_time', 'raise', 'do'}),
@@ -66,7 +72,7 @@ def run(check, obs, labels, limit=None, invariants=INVS, random=True, conform=Fa
     def gen(label):
         return label, check.witnesses(label, CONFIGS[label], emit='EmitOps', invariants=list(invariants) + (['NoStuck'] if check.tier == 'thorough' else []),
                                       coverage=check.tier == 'thorough', limit=max(limit, FULL.get(label, 0)))
-    labels = list(labels)
+    labels = os.environ['VERIF_LABELS'].split() if os.environ.get('VERIF_LABELS') else list(labels)   # developer knob
     for lo in range(0, len(labels), 3):         # the TLC runs of three configurations overlap
         with ThreadPoolExecutor(3) as ex:
             generated = list(ex.map(gen, labels[lo:lo + 3]))
